@@ -404,6 +404,11 @@ func (its *PushPullHandler) evaluatePushPullCase() (pushPullCase, errors.OrdaErr
 		if its.datatypeDoc == nil {
 			return caseMatchNothing, nil
 		}
+		if its.datatypeDoc.CollectionNum != its.collectionDoc.Num {
+			// DUIDs are looked up across collections; never serve another collection's datatype
+			its.datatypeDoc = nil
+			return caseError, errors.PushPullAbortionOfClient.New(its.ctx.L(), "the datatype belongs to another collection")
+		}
 		return caseUsedDUID, nil
 	}
 	if its.datatypeDoc.Type == its.gotPushPullPack.Type.String() {
